@@ -667,10 +667,10 @@ theorem fits_doc (c : Cfg) (decl : Fields) : ∀ (d : BFields), bridgeDoc c decl
 /-- the decidable condition of the capstone: a binary document of the byte-level model `BinTape.Fields`
 that is well-formed, canonical and without mixed containers (C04's end-to-end conditions); flat, with keys
 that mean the same in both formats and values in C10's shared leaf fragment for the field they meet
-(`c10doc`); a struct request without `u16` targets; scalars that have a text form the text parsers read
+(`c10doc`); scalars that have a text form the text parsers read
 back as written (`bridgeDoc`, `textOK`). -/
 def c10bytes (c : Cfg) (decl : Fields) (D : BinTape.Fields) : Bool :=
-  noMixedF D && D.wfDoc && canonF D && c10doc c decl (toBDoc D) && noU16F decl &&
+  noMixedF D && D.wfDoc && canonF D && c10doc c decl (toBDoc D) &&
     bridgeDoc c decl (toBDoc D) && textOK c (toBDoc D)
 
 /-- (C10 at BYTE level, flat documents) ONE logical document `D`, ONE struct definition `decl`.
@@ -698,12 +698,11 @@ theorem C10_bytes_end_to_end (c : Cfg) (decl : Fields) (D : BinTape.Fields) (h :
       deOndemand c (.plain (.struct decl)) (rawLexemes D.encode) = valueOfBin c (.plain (.struct decl)) (toBDoc D) ∧
       deStream c (.plain (.struct decl)) (rawLexemes D.encode) = valueOfBin c (.plain (.struct decl)) (toBDoc D) := by
   simp only [c10bytes, Bool.and_eq_true] at h
-  obtain ⟨⟨⟨⟨⟨⟨hm, hw⟩, hc⟩, hdoc⟩, hu⟩, hbr⟩, htx⟩ := h
+  obtain ⟨⟨⟨⟨⟨hm, hw⟩, hc⟩, hdoc⟩, hbr⟩, htx⟩ := h
   -- binary side
   obtain ⟨hC, _, hfit⟩ := c10doc_fields c decl (toBDoc D).len (toBDoc D) rfl hdoc
   have hparse : BinTape.parse false D.encode = .ok (BinTape.tapeOfBin D) := BinTape.faithful_doc D hw
-  obtain ⟨e1, e2, e3⟩ := C04_paths_end_to_end c (.plain (.struct decl)) D hm hw hc (by simpa [fitsRoot] using hfit)
-    (by simpa [noU16Root, noU16] using hu) false _ hparse
+  obtain ⟨e1, e2, e3⟩ := C04_paths_end_to_end c (.plain (.struct decl)) D hm hw hc (by simpa [fitsRoot] using hfit) false _ hparse
   -- the two references
   have hspec := C10_flat_spec c decl (toBDoc D) hC
   have hbridge := valueOfText_bridge c decl (toBDoc D) hbr
